@@ -68,8 +68,13 @@ fn gen_history(kind: &str, rng: &mut Rng, big: bool) -> (Vec<Vec<u8>>, Vec<AOp>)
     let nkeys = rng.range(2, 3);
     let mut keys = BTreeSet::new();
     while (keys.len() as u64) < nkeys { keys.insert(gen_key(kind, rng, 10)); }
-    let keys: Vec<Vec<u8>> = keys.into_iter().collect();
+    let mut keys: Vec<Vec<u8>> = keys.into_iter().collect();
     let mut ops = Vec::new();
+    // a key so long that every record naming it outgrows the 8 KiB write buffer (a put's record is
+    // key + 45 + 44 bytes): written past the buffer, synced — or not — on its own
+    if !big && matches!(kind, "bytes" | "string") && rng.chance(1, 5) {
+        keys[0] = vec![b'k'; *rng.pick(&[8103usize, 8150, 9000, 20_000])];
+    }
     if big {
         // a range removal whose WAL record exceeds the 8 KiB BufWriter: ≥ 410 sixteen-byte keys
         return (keys, vec![AOp::RemoveAll]);
@@ -313,7 +318,10 @@ fn family<K: HKey>(s: &mut Sess, rng: &mut Rng, mode: Mode, prop: &'static str, 
     if rng.chance(1, 8) { targets.push(usize::MAX); }
     targets.push(ops.len() - 1);
     if ops.len() > 1 && rng.chance(1, 2) { targets.push(rng.below(ops.len() as u64 - 1) as usize); }
-    if rng.chance(1, 10) { targets.push(ops.len()); }
+    // the final close: rarely under kills; ALWAYS under power loss — its cut 0 is the power loss right
+    // after the last operation was acknowledged (what that operation left unsynced is lost then, and
+    // no cut inside the operation shows it)
+    if mode == Mode::PowerLoss || rng.chance(1, 10) { targets.push(ops.len()); }
     for target in targets {
         let probe = Plan { target, k: 1_000_000, spec: None, nested_k: None, second_k: None };
         let r = run_one::<K>(s, rng, &cfg, &keys, &ops, big, Some(&probe), prop);
